@@ -41,7 +41,8 @@ type mrec struct {
 
 func fieldOfSrc(src string) (string, string) {
 	switch {
-	case strings.HasPrefix(src, "val($") && strings.HasSuffix(src, ")"):
+	case strings.HasPrefix(src, "val($") && strings.HasSuffix(src, ")") && !strings.ContainsAny(src[4:len(src)-1], "() +"):
+		// exactly one field (a sum or a packed expression of several fields is a computed, local source)
 		return src[4 : len(src)-1], "field"
 	case strings.HasPrefix(src, "enc($") && strings.HasSuffix(src, ")"):
 		return src[4 : len(src)-1], "child"
@@ -64,7 +65,9 @@ func fieldOfSrc(src string) (string, string) {
 
 func runC05(w *World, r *Report) {
 	r.Rule("tailguard", "a decoder that keeps the rest of its input from some offset admits every input that has a byte there", 1)
-	tailGuardRule(w, r, "tailguard", func(k *Kind) bool { return strings.HasPrefix(k.Name, "openflow13.") || strings.HasPrefix(k.Name, "common.") })
+	tailGuardRule(w, r, "tailguard", func(k *Kind) bool {
+		return strings.HasPrefix(k.Name, "openflow13.") || strings.HasPrefix(k.Name, "common.")
+	})
 	r.Rule("observers", "methods that formatting calls implicitly (String, Error, …) leave the value unchanged", 1)
 	observerRule(w, r, "observers", "openflow13", "common", "util")
 	r.Rule("owns-memory", "a decoded value keeps no reference into the input it was decoded from (the C12 may-alias rule): it still equals what was decoded when the input buffer is reused", 60)
